@@ -222,9 +222,9 @@ func runEncode(r *mon.Run, c *checker) {
 		origin := func() string {
 			return fmt.Sprintf("encode len=%d content=DetBytes(\"c08-enc-%d-%d-%d\") segmentation=%s %v", ec.n, r.Seed, ec.n, ec.variant, ec.seg.name, trimInts(ec.seg.writes))
 		}
-		keyBase := fmt.Sprintf("encode:%s:len=%s:", ec.seg.name, encLenClass(ec.n))
+		c.encodeRan(ec.seg.name, encLenClass(ec.n))
 		fail := func(kind, what string, text []byte) {
-			c.violate(keyBase+kind, witness{text: text, what: what, origin: origin(),
+			c.violateEncode(encKey{ec.seg.name, encLenClass(ec.n), kind}, witness{text: text, what: what, origin: origin(),
 				extra: map[string]any{"length": ec.n, "writes": trimInts(ec.seg.writes), "content_label": fmt.Sprintf("c08-enc-%d-%d-%d", r.Seed, ec.n, ec.variant)}})
 		}
 		r.Eval(1)
@@ -267,8 +267,9 @@ func runEncode(r *mon.Run, c *checker) {
 			c.check(&s, st, text, dWhole, "encode_output_as_text", origin)
 			r.Eval(1)
 		}
-		if ec.n <= 3 || ec.n == 48 {
-			r.SampleN("encode:"+ec.seg.name, 1, map[string]any{"side": "encode", "length": ec.n, "writes": trimInts(ec.seg.writes), "armored": string(text), "result": "de-armors to the input under all deliveries"})
+		if ec.n == 0 || ec.n == 50 && ec.seg.name == "step47" || ec.n == 100 && ec.seg.name == "random" {
+			c.sample("encode", sampleBudget["encode"], fmt.Sprintf("%s/%d", ec.seg.name, ec.n), map[string]any{"length": ec.n, "segmentation": ec.seg.name, "writes(-1=nil,0=empty)": trimInts(ec.seg.writes),
+				"armored": quote(text), "result": "de-armors to the input under all deliveries; output is canonical"})
 		}
 	})
 	for _, st := range sts {
